@@ -29,6 +29,8 @@ pub fn form_name(f: Form) -> &'static str {
         Form::AddSlice => "AddSlice",
         Form::AddByte => "AddByte",
         Form::IterInexact => "IterInexact",
+        Form::AddArray => "AddArray",
+        Form::IterNotFused => "IterNotFused",
     }
 }
 pub fn form_from(s: &str) -> Option<Form> {
